@@ -208,15 +208,6 @@ theorem C19_nextMoment_refines (now : Time) (h mi s : Int) :
     getNextMoment now.off now h mi s = ⟨nextMoment now.off now.ns h mi s, now.off⟩ :=
   getNextMoment_eq now h mi s
 
-/-- wall clock of an instant: nanoseconds since local midnight -/
-theorem nsOfDay_of_hms (off z h mi s : Int) (hv : validHMS h mi s = true) :
-    nsOfDay off (z * nsPerDay - off * nsPerSec + (h * 3600 + mi * 60 + s) * nsPerSec) = (h * 3600 + mi * 60 + s) * nsPerSec ∧
-    localDays off (z * nsPerDay - off * nsPerSec + (h * 3600 + mi * 60 + s) * nsPerSec) = z := by
-  simp only [validHMS, Bool.and_eq_true, decide_eq_true_eq] at hv
-  have := localDays_midnight off z ((h * 3600 + mi * 60 + s) * nsPerSec) (by unfold nsPerSec; omega)
-    (by unfold nsPerDay nsPerSec; omega)
-  exact ⟨this.2, this.1⟩
-
 /-- `GetNextMoment now h:mi:s` (with `now` expressed in `time.Local`) is the earliest instant strictly
     after `now` whose wall clock shows `h:mi:s.000000000`: it is in the future, at most a day ahead,
     shows that time, and no instant in between does -/
@@ -474,6 +465,193 @@ theorem C19_period_point_predicates (p : Period) (t : Time) (h : p.1.ns ≤ p.2.
   simp only [Period.isBefore, Period.isAfter, Period.isBetween, Period.isOngoing, Period.isBetweenOrEqual,
     Time.before, Time.after, Time.equal, Bool.or_eq_true, Bool.and_eq_true, decide_eq_true_eq]
   refine ⟨trivial, ?_, trivial, ?_, ?_⟩ <;> constructor <;> intro h' <;> omega
+
+
+
+/-! ## 7. The judges applied to the model (constant zone) always accept -/
+
+theorem C19_startOfDay_judge (t : Time) :
+    sodOk (fun _ => t.off) t.ns (getStartOfDay t).ns = true := by
+  obtain ⟨h1, _, _, h4, _⟩ := C19_startOfDay t
+  have hn : nsOfDay t.off (getStartOfDay t).ns = 0 := by
+    rw [getStartOfDay_eq]; dsimp only; rw [startOfDay_eq]
+    have := localDays_midnight t.off (localDays t.off t.ns) 0 (by omega) (by unfold nsPerDay; omega)
+    rw [Int.add_zero] at this; exact this.2
+  simp only [sodOk, wallDays, wallNsOfDay, Bool.and_eq_true, decide_eq_true_eq, beq_iff_eq]
+  exact ⟨⟨h1, h4⟩, hn⟩
+
+theorem C19_endOfDay_judge (t : Time) :
+    eodOk (fun _ => t.off) t.ns (getEndOfDay t).ns = true := by
+  have hm := localDays_midnight t.off (localDays t.off t.ns) (86399 * nsPerSec) (by unfold nsPerSec; omega)
+    (by unfold nsPerDay nsPerSec; omega)
+  rw [← startOfDay_eq] at hm
+  simp only [eodOk, wallDays, wallNsOfDay, Bool.and_eq_true, beq_iff_eq, getEndOfDay_eq, Spec.Chrono.endOfDay]
+  exact hm
+
+theorem C19_startOfWeek_judge (t : Time) (wd : Int) (hv : validWeekday wd = true) :
+    sowOk (fun _ => t.off) t.ns wd (getStartOfWeek t wd).ns = true := by
+  simp only [validWeekday, Bool.and_eq_true, decide_eq_true_eq] at hv
+  obtain ⟨_, h2, h3, h4, _⟩ := C19_startOfWeek t wd hv.1 hv.2
+  simp only [sowOk, wallDays, wallNsOfDay, wallWeekday, Bool.and_eq_true, beq_iff_eq]
+  exact ⟨⟨h3, h2⟩, h4⟩
+
+theorem C19_endOfWeek_judge (t : Time) (wd : Int) (hv : validWeekday wd = true) :
+    eowOk (fun _ => t.off) t.ns wd (getEndOfWeek t wd).ns = true := by
+  simp only [validWeekday, Bool.and_eq_true, decide_eq_true_eq] at hv
+  obtain ⟨hl, hn⟩ := weekdayStart_local t.off t.ns wd
+  have hs := local_split t.off (weekdayStart t.off t.ns wd)
+  rw [hl, hn] at hs
+  have hm := localDays_midnight t.off (mondayOf (localDays t.off t.ns) + isoIndex wd) (86399 * nsPerSec)
+    (by unfold nsPerSec; omega) (by unfold nsPerDay nsPerSec; omega)
+  have e : weekdayStart t.off t.ns wd + 86399 * nsPerSec =
+      (mondayOf (localDays t.off t.ns) + isoIndex wd) * nsPerDay - t.off * nsPerSec + 86399 * nsPerSec := by omega
+  simp only [eowOk, wallDays, wallNsOfDay, wallWeekday, Bool.and_eq_true, beq_iff_eq, getEndOfWeek_eq, e, hm.1, hm.2]
+  unfold mondayOf isoIndex weekdayOfDays
+  generalize localDays t.off t.ns = z
+  refine ⟨⟨trivial, ?_⟩, ?_⟩ <;> split <;> omega
+
+theorem C19_relStartOfWeek_judge (t : Time) (wd k : Int) (hv : validWeekday wd = true) :
+    relSowOk (fun _ => t.off) t.ns wd k (getRelativeStartOfWeek t wd k).ns = true := by
+  simp only [validWeekday, Bool.and_eq_true, decide_eq_true_eq] at hv
+  obtain ⟨hl, hn⟩ := relWeekStart_local t.off t.ns wd k
+  simp only [relSowOk, wallDays, wallNsOfDay, wallWeekday, Bool.and_eq_true, beq_iff_eq, decide_eq_true_eq,
+    getRelativeStartOfWeek_eq t wd k hv.1 hv.2, hl, hn]
+  unfold weekdayOfDays
+  generalize localDays t.off t.ns = z
+  refine ⟨⟨⟨trivial, ?_⟩, ?_⟩, ?_⟩ <;> omega
+
+theorem C19_nextMoment_judge (now : Time) (h mi s : Int) (offs : List Int) (hv : validHMS h mi s = true) :
+    nextOk (fun _ => now.off) offs now.ns h mi s (getNextMoment now.off now h mi s).ns = true := by
+  obtain ⟨_, h2, _, h4, h5⟩ := C19_nextMoment_earliest_future now h mi s hv
+  simp only [nextOk, wallCandidates, wallNsOfDay, Bool.and_eq_true, decide_eq_true_eq, beq_iff_eq,
+    List.all_eq_true, List.mem_filter]
+  refine ⟨⟨h2, h4⟩, ?_⟩
+  intro x hx
+  exact h5 x hx.2.1 hx.2.2
+
+theorem C19_same_judge (off a b : Int) :
+    isSameDay ⟨a, off⟩ ⟨b, off⟩ = sameDayRel (fun _ => off) a b ∧
+    isSameWeek ⟨a, off⟩ ⟨b, off⟩ = sameWeekRel (fun _ => off) a b ∧
+    isSameMonth ⟨a, off⟩ ⟨b, off⟩ = sameMonthRel (fun _ => off) a b := by
+  refine ⟨?_, ?_, ?_⟩
+  · have := (C19_sameDay_boundaries off a b).1
+    unfold sameDayRel wallDays
+    cases h : isSameDay ⟨a, off⟩ ⟨b, off⟩ <;> simp_all
+  · have := (C19_sameWeek_boundaries off a b).1
+    unfold sameWeekRel wallDays
+    cases h : isSameWeek ⟨a, off⟩ ⟨b, off⟩ <;> simp_all
+  · simp only [isSameMonth, sameMonthRel, wallDays, Time.month, Time.year, Civil.month, Civil.year]
+    exact Bool.and_comm _ _
+
+theorem C19_weekWindow_judge (t : Time) :
+    weekWindowOk (fun _ => t.off) t.ns (newPeriodWindowWeek t).1.ns (newPeriodWindowWeek t).2.ns = true := by
+  obtain ⟨h1, h2, h3, h4⟩ := C19_weekWindow_contains_anchor t
+  have hj := C19_startOfWeek_judge t 1 (by decide)
+  obtain ⟨hl, hn⟩ := weekdayStart_local t.off t.ns 1
+  have hs := local_split t.off (weekdayStart t.off t.ns 1)
+  rw [hl, hn] at hs
+  have hm := localDays_midnight t.off (mondayOf (localDays t.off t.ns) + isoIndex 1 + 7) 0 (by omega) (by unfold nsPerDay; omega)
+  have e : (getStartOfWeek t 1).ns + nsPerWeek =
+      (mondayOf (localDays t.off t.ns) + isoIndex 1 + 7) * nsPerDay - t.off * nsPerSec + 0 := by
+    rw [getStartOfWeek_eq]; dsimp only; unfold nsPerWeek nsPerDay at *; omega
+  have h2' : (newPeriodWindowWeek t).2.ns = (getStartOfWeek t 1).ns + nsPerWeek := by rw [h2, h1]
+  rw [h2'] at h4
+  simp only [weekWindowOk, containsAnchor, Bool.and_eq_true, decide_eq_true_eq, beq_iff_eq, wallNsOfDay, wallDays]
+  rw [h2', h1, e, hm.1, hm.2]
+  rw [e] at h4
+  refine ⟨⟨⟨hj, rfl⟩, ?_⟩, h3, h4⟩
+  rw [getStartOfWeek_eq]; dsimp only; rw [hl]
+
+theorem C19_window_judge (t : Time) (size : Int) :
+    normalised (newPeriodWindow t size).1.ns (newPeriodWindow t size).2.ns = true ∧
+    (0 < size → containsAnchor (newPeriodWindow t size).1.ns (newPeriodWindow t size).2.ns t.ns = true) := by
+  refine ⟨by simpa [normalised] using C19_period_normalised.2.1 t size, ?_⟩
+  intro h
+  obtain ⟨h1, h2, _⟩ := C19_window_contains_anchor t size h
+  simp only [containsAnchor, Bool.and_eq_true, decide_eq_true_eq]
+  exact ⟨h1, h2⟩
+
+/-- a zone table without transitions is the constant zone: the `dst-judge` oracle then evaluates exactly
+    the predicates of section 7 -/
+theorem C19_zone_without_transitions (off : Int) :
+    (Zone.offAt ⟨off, []⟩ = fun _ => off) ∧ Zone.offsets ⟨off, []⟩ = [off] := by
+  constructor
+  · funext t; rfl
+  · rfl
+
+/-- in a constant zone every wall-clock time exists exactly once per day, so the two irregularity
+    labels under which the known findings of `MV.Findings.C19` are matched (`regularWallClock = false`,
+    `regularMidnights = false`) never apply there: the deviations are confined to zones with shifts -/
+theorem C19_constant_zone_regular (off t h mi s : Int) (hv : validHMS h mi s = true) :
+    regularWallClock (fun _ => off) [off] t h mi s = true ∧ regularMidnights (fun _ => off) [off] t = true := by
+  have key : ∀ d sod : Int, 0 ≤ sod → sod < 86400 →
+      (wallInstants (fun _ => off) [off] d sod).length = 1 := by
+    intro d sod h0 h1
+    have hm := localDays_midnight off d (sod * nsPerSec) (by unfold nsPerSec; omega) (by unfold nsPerDay nsPerSec; omega)
+    have e : (d * secPerDay + sod - off) * nsPerSec = d * nsPerDay - off * nsPerSec + sod * nsPerSec := by
+      unfold secPerDay nsPerDay nsPerSec; omega
+    simp only [wallInstants, List.map_cons, List.map_nil, wallDays, wallNsOfDay, e]
+    rw [List.filter_cons_of_pos (by simp [hm.1, hm.2])]
+    rfl
+  simp only [validHMS, Bool.and_eq_true, decide_eq_true_eq] at hv
+  constructor
+  · simp only [regularWallClock, Bool.and_eq_true, beq_iff_eq]
+    exact ⟨key _ _ (by omega) (by omega), key _ _ (by omega) (by omega)⟩
+  · simp only [regularMidnights, List.all_eq_true, beq_iff_eq]
+    intro i _
+    exact key _ 0 (by omega) (by omega)
+
+/-! ## 8. One 400-year cycle is enough -/
+
+/-- shifting the instant by 146097 days shifts every answer by 146097 days (week helpers: 146097 = 7·20871)
+    and leaves the predicates unchanged -/
+theorem C19_helpers_periodic (t : Time) (wd k h mi s : Int) (h0 : 0 ≤ wd) (h1 : wd ≤ 6) :
+    (getStartOfDay ⟨t.ns + 146097 * nsPerDay, t.off⟩).ns = (getStartOfDay t).ns + 146097 * nsPerDay ∧
+    (getEndOfDay ⟨t.ns + 146097 * nsPerDay, t.off⟩).ns = (getEndOfDay t).ns + 146097 * nsPerDay ∧
+    (getStartOfWeek ⟨t.ns + 146097 * nsPerDay, t.off⟩ wd).ns = (getStartOfWeek t wd).ns + 146097 * nsPerDay ∧
+    (getRelativeStartOfWeek ⟨t.ns + 146097 * nsPerDay, t.off⟩ wd k).ns =
+      (getRelativeStartOfWeek t wd k).ns + 146097 * nsPerDay ∧
+    (getNextMoment t.off ⟨t.ns + 146097 * nsPerDay, t.off⟩ h mi s).ns =
+      (getNextMoment t.off t h mi s).ns + 146097 * nsPerDay ∧
+    Time.weekday ⟨t.ns + 146097 * nsPerDay, t.off⟩ = t.weekday ∧
+    Time.month ⟨t.ns + 146097 * nsPerDay, t.off⟩ = t.month ∧
+    Time.day ⟨t.ns + 146097 * nsPerDay, t.off⟩ = t.day ∧
+    Time.year ⟨t.ns + 146097 * nsPerDay, t.off⟩ = t.year + 400 := by
+  have hl : localDays t.off (t.ns + 146097 * nsPerDay) = localDays t.off t.ns + 146097 := localDays_add_days _ _ _
+  have hn : nsOfDay t.off (t.ns + 146097 * nsPerDay) = nsOfDay t.off t.ns := nsOfDay_add_days _ _ _
+  have hc := civilFromDays_add146097 (localDays t.off t.ns)
+  have hnm := getNextMoment_eq (⟨t.ns + 146097 * nsPerDay, t.off⟩ : Time) h mi s
+  dsimp only at hnm
+  have hnm0 := getNextMoment_eq t h mi s
+  simp only [getStartOfDay_eq, getEndOfDay_eq, getStartOfWeek_eq, getRelativeStartOfWeek_eq _ wd k h0 h1, hnm, hnm0,
+    Time.weekday, Time.month, Time.day, Time.year, Civil.weekday, Civil.month, Civil.day, Civil.year]
+  rw [hl, hc, weekdayOfDays_add146097]
+  unfold Spec.Chrono.endOfDay Spec.Chrono.startOfDay weekdayStart relWeekStart nextMoment Spec.Chrono.startOfDay
+  dsimp only
+  rw [hl, hn]
+  unfold midnightOf mondayOf weekdayOfDays
+  generalize localDays t.off t.ns = z
+  generalize nsOfDay t.off t.ns = x
+  unfold nsPerDay nsPerSec
+  refine ⟨by omega, by omega, by omega, by omega, ?_, rfl, rfl, rfl, rfl⟩
+  split <;> split <;> omega
+
+/-! ## Non-vacuity: the statements speak about real dates -/
+
+example : civilFromDays 19782 = (2024, 2, 29) ∧ daysFromCivil 2024 2 29 = 19782 ∧ weekdayOfDays 19782 = 4 := by decide
+example : validDate 2024 2 29 = true ∧ validDate 2023 2 29 = false ∧ validDate 1900 2 29 = false ∧
+    validDate 2000 2 29 = true := by decide
+/-- 2024-03-03 (a Sunday) 12:00 UTC: the Monday of its week is 2024-02-26, the latest Saturday is 03-02 -/
+example : (getStartOfWeek ⟨1709467200000000000, 0⟩ 1).ns = 1708905600000000000 ∧
+    (getRelativeStartOfWeek ⟨1709467200000000000, 0⟩ 6 0).ns = 1709337600000000000 ∧
+    (getRelativeStartOfWeek ⟨1709467200000000000, 0⟩ 6 (-1)).ns = 1708732800000000000 := ⟨by rfl, by decide +kernel, by decide +kernel⟩
+/-- at 12:00:00 exactly, the next 12:00:00 is tomorrow; one nanosecond earlier it is now+1ns -/
+example : (getNextMoment 0 ⟨1609502400000000000, 0⟩ 12 0 0).ns = 1609588800000000000 ∧
+    (getNextMoment 0 ⟨1609502399999999999, 0⟩ 12 0 0).ns = 1609502400000000000 := ⟨by rfl, by rfl⟩
+/-- touching periods do not overlap, nested ones do; a negative window size is normalised -/
+example : Period.isOverlap (⟨0, 0⟩, ⟨10, 0⟩) (⟨10, 0⟩, ⟨20, 0⟩) = false ∧
+    Period.isOverlap (⟨0, 0⟩, ⟨10, 0⟩) (⟨2, 0⟩, ⟨5, 0⟩) = true ∧
+    newPeriodWindow ⟨5, 0⟩ (-3) = (⟨2, 0⟩, ⟨5, 0⟩) := by decide
 
 
 end MV.Props.C19
